@@ -28,6 +28,7 @@ def run_fuzz_target(t, exe, tier, seed, workdir, root, out, ncpu):
         stats = os.path.join(d, "stats.json")
         env = dict(os.environ)
         env["VF_STATS_FILE"] = stats
+        env["VERIF_TIER"] = tier
         env["ASAN_OPTIONS"] = "detect_leaks=0:abort_on_error=0:symbolize=1:allocator_may_return_null=1:malloc_context_size=10"
         argv = [exe, "-seed=%d" % (seed * 1000 + k + 1), "-max_len=%d" % t.get("max_len", 512),
                 "-artifact_prefix=" + os.path.join(d, "art") + "/", "-print_final_stats=1", "-rss_limit_mb=3000",
